@@ -845,6 +845,18 @@ func (p *parser) validateFunctionAlias(aliasTokens []token.Token, params []ast.P
 		return &err
 	}
 
+	// an alias that consists of parameters only would match every expression, including its own arguments
+	if count := countElements(aliasTokens, isAliasParam); count > 0 && count == len(aliasTokens)-1 { // -1 for the EOF
+		err := ddperror.New(
+			ddperror.SEM_MALFORMED_ALIAS,
+			ddperror.LEVEL_ERROR,
+			token.NewRange(&aliasTokens[len(aliasTokens)-1], &aliasTokens[len(aliasTokens)-1]),
+			"Ein Alias muss mindestens ein Wort enthalten, das kein Parameter ist",
+			p.module.FileName,
+		)
+		return &err
+	}
+
 	nameTypeMap := make(map[string]ddptypes.ParameterType, len(params)) // map that holds the parameter names contained in the alias and their corresponding type
 	nameSet := make(map[string]struct{}, len(params))                   // set that holds the parameter names contained in the alias
 	for _, param := range params {
@@ -907,6 +919,18 @@ func (p *parser) validateStructAlias(aliasTokens []token.Token, fields []*ast.Va
 			ddperror.LEVEL_ERROR,
 			token.NewRange(&aliasTokens[len(aliasTokens)-1], &aliasTokens[len(aliasTokens)-1]),
 			"Der Alias enthält ungültige Symbole",
+			p.module.FileName,
+		)
+		return &err, nil
+	}
+
+	// an alias that consists of parameters only would match every expression, including its own arguments
+	if count := countElements(aliasTokens, isAliasParam); count > 0 && count == len(aliasTokens)-1 { // -1 for the EOF
+		err := ddperror.New(
+			ddperror.SEM_MALFORMED_ALIAS,
+			ddperror.LEVEL_ERROR,
+			token.NewRange(&aliasTokens[len(aliasTokens)-1], &aliasTokens[len(aliasTokens)-1]),
+			"Ein Alias muss mindestens ein Wort enthalten, das kein Parameter ist",
 			p.module.FileName,
 		)
 		return &err, nil
